@@ -9,6 +9,7 @@ mod casm_ref;
 mod checks;
 mod classes;
 mod comp;
+mod constcheck;
 mod corpus;
 mod dbscen;
 mod exec;
